@@ -327,6 +327,14 @@ O(id='oer_decode_primitive.b12', props=['C04', 'C05', 'C14', 'C15'], kind='bound
 O(id='oer_primitive_roundtrip', props=['C01', 'C02', 'C07'], kind='bounded', entry='h_oer_primitive_roundtrip', functions=['oer_encode_primitive', 'oer_decode_primitive', 'oer_serialize_length'],
   unwind=18, bound='contents of at most 6 octets; callback may fail at any call', min_props=50, **OP)
 
+# ---------------------------------------------------------------- SET OF over UPER: element count / bomb guard
+O(id='SET_OF_decode_uper.n201', props=['C01', 'C03', 'C15'], kind='bounded', entry='h_SET_OF_decode_uper', harness='harness/h_setof_uper.c',
+  units=[SK + 'constr_SET_OF.c', SK + 'asn_SET_OF.c'], functions=['SET_OF_decode_uper', 'asn_set_add'],
+  fp_restrict=[(r'uper_decoder\)$', ['stub_elem_uper']), (r'free_struct\)$', ['stub_free'])],
+  unwind=203, cbmc=['--unwindset', 'asn_get_few_bits:4', '--no-malloc-may-fail'],
+  bound='one list of exactly 201 elements, element width 0..8 bits (stub element decoder that, like every primitive UPER decoder, reports consumed = 0)',
+  min_props=50, timeout=1500)
+
 UNVERIFIED = {
  'C07': ['asn_encode_to_buffer / asn_encode_to_new_buffer / uper_encode_to_buffer / uper_encode_to_new_buffer with a UPER type encoder: obligations exist (tier experimental) but do not discharge (symbolic-length memcpy of the 32-octet bit scratch space runs out of memory); asn_encode with UPER is covered',
          'every constructed / generated type encoder is assumed to follow the operation-slot convention enumerated by the stub encoder',
